@@ -21,6 +21,17 @@ CHECKS = {
         "root) x 1-3 workers plus two cascades in flight; oracle evaluated at the instant AddEventAndWait returns (all actions of "
         "the cascade finished, exactly the expected rules ran, error report exact) and at quiescence (finish handler exactly once, "
         "all monitors finished, no deadlock, no panic, no 'left events behind')"),
+ "C12": dict(engine="engine-A", cat="model_checking", ref="DESIGN.md 4, 7/C12", note=SCHED_NOTE + "; thread ids are non-zero and distinct (NewThreadID never returns 0)", tech=SCHED_TECH,
+   text="every schedule (preemption bound 1-3) of 42 drivers of the real interpreter: 2-3 threads evaluating functions directly with own thread "
+        "ids, and two sink invocations on 2 workers plus one direct evaluation, entering mutex blocks of names {m,n}, nesting depth 1-3, six "
+        "exit kinds (normal, raise, runtime error, return, break, continue); oracle: occupancy of a name never exceeds 1 (harness enter/leave "
+        "functions called from ECAL), a schedule with two different names occupied is found, nested same-name entry never blocks, no deadlock, "
+        "no lost update on a counter updated only inside the block, owner table and mutexes released at the end"),
+ "C11": dict(engine="engine-A", cat="model_checking", ref="DESIGN.md 4, 7/C11", note=SCHED_NOTE, tech=SCHED_TECH,
+   text="every schedule (preemption bound 1-2, free-choice bound 1) of 7 drivers: 2-3 events with every mix of failing/succeeding payloads "
+        "trigger the same ECAL sink (and two sinks sharing a global function) on 2-3 workers, each added with wait from its own thread; oracle: "
+        "every invocation sees its own event and its own let-local at every probe, the error report of each root is exactly (type, detail, "
+        "data) of its own payload, no panic, no happens-before race on any instrumented shared variable"),
 }
 
 ENGINES = [
